@@ -51,6 +51,10 @@ def gen_case(seed: int, tier: str, index: int) -> Dict[str, Any]:
         cfg["snapshot"] = snapshot_files()[rng.randrange(len(snapshot_files()))].split("/")[-1]
         cfg["loop"] = {"cost_small_p": 0.1, "cost_small_max": 0.002}
         if rng.random() < 0.5:
+            from sim.system import draw_firmware
+
+            cfg["firmware"] = draw_firmware(rng)
+        if rng.random() < 0.5:
             # lossy runs: retried requests draw fresh numbers, unsolicited STATP acknowledgements draw while a request waits
             cfg["lossy"] = True
             cfg["net"].update({"loss": rng.choice([0.05, 0.12, 0.25]), "slow_p": 0.05, "slow_max": rng.choice([0.5, 3.0]), "dup": 0.03,
